@@ -992,8 +992,9 @@ int main(int argc, char **argv)
                       vr::Shard none;
                       none.w = -1;
                       Engine M(none, scratch);
-                      familyA(M, thorough, lim, &base);
-                      familyB(M, thorough, lim, &base);
+                      // (the quick-tier product in both tiers: the thorough tier spends its budget on cuts, not on more bases)
+                      familyA(M, false, lim, &base);
+                      familyB(M, false, lim, &base);
                     }
                     if (only.find('A') != std::string::npos)
                       familyA(E, thorough, lim, nullptr);
